@@ -4,6 +4,7 @@ import (
 	"fmt"
 	"github.com/chain4energy/c4e-chain/x/cfedistributor/types"
 	sdk "github.com/cosmos/cosmos-sdk/types"
+	authtypes "github.com/cosmos/cosmos-sdk/x/auth/types"
 )
 
 // RegisterInvariants register cfedistribution invariants
@@ -39,7 +40,10 @@ func StateSumBalanceCheckInvariant(k Keeper) sdk.Invariant {
 
 		var broken bool
 
-		distributorAccountCoins := k.GetAccountCoinsForModuleAccount(ctx, types.DistributorMainAccount)
+		// an invariant must not write: GetModuleAccount would create (and number) the module
+		// account if it does not exist yet, and whether and when invariants run differs from
+		// node to node (--x-crisis-skip-assert-invariants, --inv-check-period)
+		distributorAccountCoins := k.GetAccountCoins(ctx, authtypes.NewModuleAddress(types.DistributorMainAccount))
 		if remainsSum.IsZero() && distributorAccountCoins.IsZero() {
 			ctx.Logger().Debug("Coin state and distributor account is empty possible start of blockchain")
 			broken = false
